@@ -77,9 +77,31 @@ def known_answers():
     return bad
 
 
+def cross_engine():
+    """CrossHair on the scalar lemmas this engine proves in tad.reach_step / tad.reward_step"""
+    from . import xcheck, runner
+    res = xcheck.run(per_condition_timeout=60)
+    if res is None:
+        print("selftest cross-engine: CrossHair not available, skipped")
+        return 0
+    # this engine's verdict on the same lemmas (K=3 / K=2 instances of the node lemmas)
+    runner.load_checks()
+    mine = 0
+    for hid, params in (("tad.reach_step", dict(kind="Player 1", K=3)), ("tad.reach_step", dict(kind="Player 2", K=3)),
+                        ("tad.reward_step", dict(kind="Player 1", K=2)), ("tad.reward_step", dict(kind="Player 2", K=2))):
+        r = runner.run_job((hid, params))
+        mine += len(r.get("violations", [])) + (1 if "error" in r else 0)
+    disagree = bool(res["counterexamples"]) != bool(mine)
+    print("selftest cross-engine: CrossHair confirmed %d, counterexamples %d, unconfirmed %d; this engine: %d counterexample(s) -> %s" % (
+        len(res["confirmed"]), len(res["counterexamples"]), len(res["other"]), mine, "DISAGREE" if disagree else "agree"))
+    for c in res["counterexamples"][:3]:
+        print("   crosshair: " + c[:200])
+    return 1 if disagree else 0
+
+
 def main():
     t0 = time.time()
-    bad = known_answers() + differential()
+    bad = known_answers() + differential() + cross_engine()
     print("selftest: %s in %.1fs (z3 %s, repo %s)" % ("OK" if not bad else "%d FAILED" % bad, time.time() - t0,
                                                        z3.get_version_string(), repo.REPO))
     return 0 if not bad else 2
